@@ -152,6 +152,7 @@ class ThresholdPairCorr(Corr):
 class C08(Prop):
     id = "C08"
     props_file = "Props/C08.v"
+    extra_props_files = ["Props/Pipeline.v"]     # the composed frame pipeline (C01 -> C10 -> C03 -> C04; C08 on it)
     design_ref = "DESIGN.md section 4, C08"
     technique = "Rocq proof (monotonicity of the interpolated area via Abel summation; case analysis of is_result_correct) on the C04 model; in-Coq correspondence at threshold pairs"
     level_text = ("Theorems (Props/C08.v, closed under the global context), for ALL result sets, thresholds and rankings: is_better_than and "
